@@ -293,3 +293,92 @@ def rule_c14_r4(model: Model) -> RuleResult:
             r.fail(INIT, f"exit at line {rn.lineno} skips __post_init__", f.loc(rn.ast) if rn.ast is not None else f.loc(),
                    "instances created on this path are never validated / completed by __post_init__")
     return r
+
+
+def rule_c14_r7(model: Model) -> RuleResult:
+    """C14: values converted by the field converters are stored as they are: the data paths build the instance with the unchecked
+    constructors, never with the checked one (which would serialise and convert every item a second time)."""
+    r = RuleResult('C14-R7', 'the conversion passes assemble the dataclass from converted values through the unchecked constructors only', floor=4)
+    from ..family import conversion_zone
+    cls = model.cls('pane.classes.PaneConverter')
+    for f in conversion_zone(model)[cls.qualname]:
+        if f.name == 'into_data':
+            continue
+        cfg = cfg_of(model, f)
+        nz = Normalizer(model, f, cfg)
+        for n in cfg.live_nodes():
+            for root in node_exprs(n):
+                for c in walk_no_nested(root):
+                    if not isinstance(c, ast.Call):
+                        continue
+                    fn = nz.expr(c.func, n)
+                    if fn == 'self.cls' or fn.startswith('self.cls.'):
+                        r.instances += 1
+                        r.analysed.add(f.qualname)
+                        r.sample({'function': f.qualname, 'constructs with': fn})
+                        if fn in ('self.cls.make_unchecked', 'self.cls.from_dict_unchecked'):
+                            r.ok()
+                        else:
+                            r.fail(f.qualname, f"{fn}(...)", f.loc(c),
+                                   "already converted field values are passed through the checked constructor: every item is serialised and "
+                                   "converted again, so nested instances lose their set-field record and values whose output layout is not an "
+                                   "enabled input layout are refused by position but accepted by name")
+    return r
+
+
+def rule_c14_r8(model: Model) -> RuleResult:
+    """C14: dict(set_only=True) lists exactly the supplied fields (the set-field record), nothing filtered out."""
+    r = RuleResult('C14-R8', 'dict(set_only=True) ranges over the set-field record itself, with no further filter', floor=1)
+    f = model.func('pane.classes.PaneBase.dict')
+    cfg = cfg_of(model, f)
+    nz = Normalizer(model, f, cfg, param_map=_pm(f))
+    r.analysed.add(f.qualname)
+    # the record: what the generated constructor stores with object.__setattr__(self, <key>, ...)
+    m = model.module('pane.classes')
+    rec = None
+    for c in ast.walk(model.func(INIT).node):
+        if isinstance(c, ast.Call) and unparse(c.func) == 'object.__setattr__' and len(c.args) == 3 and isinstance(c.args[1], ast.Name) \
+                and isinstance(m.assign_values.get(c.args[1].id), ast.Constant):
+            rec = m.assign_values[c.args[1].id].value      # type: ignore[union-attr]
+    if rec is None:
+        raise AnalysisError(f"{f.loc()}: the set-field record key was not found in the generated constructor")
+    found = False
+    rec_forms = (repr(rec), f"self.{rec}")
+    # the function specialised for set_only=True (whatever shape the branch has: early return, if/else, conditional expression)
+    from .agreement import specialize
+    flag = next((p_ for p_ in f.params if p_ == 'set_only'), None)
+    if flag is None:
+        raise AnalysisError(f"{f.loc()}: PaneBase.dict has no set_only parameter")
+
+    def oracle(test: ast.expr) -> t.Optional[bool]:
+        if isinstance(test, ast.Name) and test.id == flag:
+            return True
+        if isinstance(test, ast.UnaryOp) and isinstance(test.op, ast.Not):
+            v = oracle(test.operand)
+            return None if v is None else not v
+        if isinstance(test, ast.Compare) and len(test.ops) == 1 and isinstance(test.left, ast.Name) and test.left.id == flag \
+                and isinstance(test.comparators[0], ast.Constant) and isinstance(test.comparators[0].value, bool):
+            same = isinstance(test.ops[0], (ast.Is, ast.Eq))
+            return (test.comparators[0].value is True) == same
+        return None
+    sf = specialize(model, f, oracle)
+    scfg = CFG(model, sf)
+    snz = Normalizer(model, sf, scfg, param_map=_pm(sf))
+    for n in scfg.live_nodes():
+        if n.kind != 'return' or n.ast is None or n.ast.value is None:
+            continue
+        form = snz.expr(n.ast.value, n)
+        found = True
+        r.instances += 1
+        r.sample({'dict(set_only=True) returns': form[:160]})
+        uses_record = any(x in form for x in rec_forms)
+        filtered = ' if ' in form and '.exclude' in form
+        if uses_record and not filtered:
+            r.ok()
+        else:
+            r.fail(f.qualname, f"returns {form[:120]}", f.loc(n.ast),
+                   "the record of supplied fields is filtered or replaced: a supplied field (e.g. one declared exclude=True) is missing from "
+                   "dict(set_only=True), or an unsupplied one appears")
+    if not found:
+        raise AnalysisError(f"{f.loc()}: no return under set_only found in PaneBase.dict")
+    return r
